@@ -164,6 +164,17 @@ Theorem C15_merge_appends : forall self other, last_cookie_line self <> Some [] 
 Proof. exact merge_cookies_spec. Qed.
 Print Assumptions C15_merge_appends.
 
+(* merge_cookies onto a plain WSGI application: every answer = the application's own headers, then this response's
+   Set-Cookie headers, once.  (The answer is a pure function of the application's headers; that the application's
+   own list OBJECT is left alone, call after call, is checked on the implementation by the merge-app correspondence
+   and oracle.) *)
+Theorem C15_merge_app_appends : forall self apph, last_cookie_line self <> Some [] ->
+  cookie_lines (wrapped_answer (merge_app_headers self) apph) = cookie_lines apph ++ cookie_lines self /\
+  other_headers (wrapped_answer (merge_app_headers self) apph) = other_headers apph /\
+  exists extra, wrapped_answer (merge_app_headers self) apph = apph ++ extra.
+Proof. exact merge_app_spec. Qed.
+Print Assumptions C15_merge_app_appends.
+
 (* ====================================================================== the hypotheses are satisfiable *)
 (* $Version=1; a = Qx; b=2Q;; secure; b=2;   (Q = double quote) is a well-formed header *)
 Example C15_wf_header_example :
